@@ -170,9 +170,11 @@ def read_item(src, tolerance=0):
 
     while src.hasNext():
         if src.peek().category == TC.Escape:
-            cmd_name, _ = make_read_peek(read_command)(
-                src, 1, skip=1, tolerance=tolerance)
-            if cmd_name in ('end', 'item'):
+            # only the name of the next command matters here: look at its
+            # token instead of parsing the command and rolling back, which
+            # parsed every nested argument twice per level
+            cmd_name = src.peek(1)
+            if cmd_name is not None and cmd_name in ('end', 'item'):
                 return extras
         elif src.peek().category == TC.GroupEnd:
             break
@@ -286,11 +288,12 @@ def read_env(src, expr, skip_envs=(), tolerance=0, mode=MODE_NON_MATH):
     """
     contents = []
     while src.hasNext():
-        if src.peek().category == TC.Escape:
+        if src.peek().category == TC.Escape and src.peek(1) == 'end':
+            # parse the command only when it is an \end: peeking every
+            # command parsed each nested argument twice per level
             name, args = make_read_peek(read_command)(
                 src, skip=1, tolerance=tolerance, mode=mode)
-            if name == 'end':
-                break
+            break
         contents.append(read_expr(src, skip_envs=skip_envs, tolerance=tolerance, mode=mode))
     error = not src.hasNext() or not args or args[0].string != expr.name
     if error and tolerance == 0:
